@@ -294,7 +294,42 @@ def r6(ctx):
     R = "C17-R6"
     ctx.rule(R, "sibling agreement: tcp::auto_bind and udp::auto_bind (implicit bind on first connect / send) use the same table API and fields")
     sibling_rule(ctx, R, "turmoil_net::kernel::tcp::auto_bind", "turmoil_net::kernel::udp::auto_bind")
-    ctx.floor(R, 1)
+    # a port is allocated in the space it is then bound in: SocketTable::allocate_port(domain, ty) checks the bindings of (domain, ty),
+    # so the BindKey built from its result must carry the same domain and type
+    BK = "turmoil_net::kernel::socket::BindKey"
+
+    def vid(b, op):
+        o = origin(b, op)
+        if o["k"] == "agg":
+            return ("variant", o["r"].get("adt"), o["r"].get("variant"))
+        if o["k"] == "place":
+            if o.get("arg"):
+                return ("arg", o["arg"])
+            return ("place", tuple(place_fields(o["p"])) or o["p"]["l"])
+        if o["k"] == "call":
+            return ("call", o["t"]["f"], o["bb"])
+        return ("?", id(o))
+    n = 0
+    for b in sorted(ctx.w.bodies.values(), key=lambda b: b.id):
+        if b.crate != "turmoil_net":
+            continue
+        allocs = [(bb, t) for bb, t in b.calls("turmoil_net::kernel::socket::SocketTable::allocate_port")]
+        if not allocs:
+            continue
+        keys = [(bb, i, s2) for bb, i, s2 in b.all_stmts() if i != "term" and s2["r"]["k"] == "agg" and s2["r"].get("adt") == BK]
+        for abb, t in allocs:
+            want = (vid(b, t["args"][1]), vid(b, t["args"][2]))
+            for bb, i, s2 in keys:
+                if bb not in b.reachable(abb):
+                    continue
+                n += 1
+                got = (vid(b, s2["r"]["ops"][0]), vid(b, s2["r"]["ops"][1]))
+                ok = got == want
+                ctx.inst(R, f"allocate-space:{b.id}#{n}", ok, t["s"], "the port is allocated in the (domain, type) space it is bound in" if ok else
+                         f"`{b.id}` allocates a port in the space {want} but binds it under {got}: ports held by live sockets of the bound type are handed out again "
+                         "without a conflict check (two sockets share an address, even a 4-tuple)")
+    ctx.inst(R, "allocate-space:found", n >= 3, "", f"{n} allocate-then-bind sites analysed" if n >= 3 else f"only {n} allocate_port -> BindKey sites found (3 expected: tcp / udp auto_bind, Kernel::bind): re-derive")
+    ctx.floor(R, 5)
 
 
 def run(ctx):
